@@ -61,6 +61,14 @@ def c09Spec (multi : Bool) (wl wr : Int) (comps : List (List (List Row) → List
   runId := "0"
   target := 1000
 
+/-- what `get_window_size()` returns: `s:w` a number, `p:a:b` a tuple / list of two, `x` anything else -/
+def c09ParseDecl (s : String) : Option WindowDecl :=
+  match s.splitOn ":" with
+  | ["s", w] => do pure (.scalar (← w.toInt?))
+  | ["p", a, b] => do pure (.pair (← a.toInt?) (← b.toInt?))
+  | ["x"] => some .other
+  | _ => none
+
 /-- one aligned call: `kind=chunk;kind=chunk` -/
 def c09ParseCall (s : String) : Option (List (String × RawChunk)) :=
   (s.splitOn ";").mapM fun tok =>
@@ -98,6 +106,19 @@ def handleC09 : List String → Option String
     let calls ← calls.mapM c09ParseCall
     pure <| showExcept c09ShowDicts
       (Overlap.mapE c09BuildCall calls >>= fun calls => runCalls (c09Spec m wl wr fs) calls)
+  | "c09.win" :: comps :: decl :: cs => do     -- any declared window form through `_get_window_size`
+    let d ← c09ParseDecl decl
+    let (wl, wr, ok, sign) := windowOf d
+    let names := comps.splitOn ","
+    let fs ← names.mapM (c09Comp wl wr)
+    let cs ← cs.mapM (c09ParseChunk "d0" "k0")
+    let spec := { c09Spec (decide (fs.length > 1)) wl wr fs with declOK := ok, signCheck := sign }
+    let res : Except Err (List (Dict Chunk)) := Overlap.mapE (·.mk') cs >>= fun cs => runDicts spec "k0" cs
+    let res1 : Except Err (List Chunk) := res >>= fun ds => Overlap.mapE single ds
+    let out : String :=
+      if fs.length > 1 then showExcept c09ShowDicts res
+      else showExcept (fun (outs : List Chunk) => if outs.isEmpty then "-" else " ".intercalate (outs.map c09ShowChunk)) res1
+    pure out
   | ["c09.whole", comp, wl, wr, rows] => do
     let wl ← wl.toInt?; let wr ← wr.toInt?
     let f ← c09Comp1 wl wr comp
